@@ -16,7 +16,7 @@ EXPLANATION = (
 NOT_DECIDED = ("that consecutive steps join up numerically, that the reported volume contains the "
                "position (C03), step >= displacement")
 
-TECHNIQUE = ('per-step-action effect sets (who may call which mutator) over the instantiation-level call graph; guard dominance and exact access-path arguments for the step-length/time setters')
+TECHNIQUE = ('per-step-action effect sets (who may call which mutator) over the instantiation-level call graph; guard dominance and exact access-path arguments for the step-length/time setters; edge reachability and must-pass from the boundary edge of the linear propagator')
 
 UNITS = [
     "src/celeritas/phys/detail/PreStepAction.cc",
